@@ -16,7 +16,7 @@ RULE = ("~x, x&y, x|y, x^y with y a fixed-point object of the same n_word (eithe
 ASSUMPTIONS = ['operands are created from raw codes', 'Fxp-array (x) Fxp-array and >=64-bit arrays (x) mask are outside the quantifier (they raise; recorded as an observation)']
 EXHAUSTIVE = False    # the whole quantifier is not enumerated; complete sub-domains are listed in EXHAUSTIVE_SUBDOMAINS
 EXHAUSTIVE_SUBDOMAINS = {'quick': ['all code pairs, n_word<=6, 4 signedness combinations, n_frac in {0, n_word//2, n_word} per operand'], 'thorough': ['same for n_word<=7 with every n_frac 0..n_word of x']}
-REQUIRED_CLASSES = {'negative': 1000, 'mixed-sign': 1000, 'wide>=64': 300, 'mask-negative': 200, 'reflected': 200, 'law': 500, 'indexed-operand': 200}
+REQUIRED_CLASSES = {'negative': 1000, 'mixed-sign': 1000, 'wide>=64': 300, 'mask-negative': 200, 'reflected': 200, 'law': 500, 'indexed-operand': 200, 'numpy-mask:rmask': 100, 'numpy-mask:mask': 100}
 OPS = ('and', 'or', 'xor')
 PY = {'and': lambda a, b: a & b, 'or': lambda a, b: a | b, 'xor': lambda a, b: a ^ b}
 WIDE = [16, 31, 32, 33, 63, 64, 65, 100, 128]
@@ -40,12 +40,14 @@ def check_vec(ctx, case):
     fy = tuple(case.get('fy') or fx)
     shape = tuple(case.get('shape') or [len(kxs)])
     F = C.Fxp()
-    sig = 'vec/%s/%s' % (ykind, 'wide' if w >= 64 else 'core')
+    sig = 'vec/%s/%s%s' % (ykind, 'wide' if w >= 64 else 'core', '/numpy-mask' if ykind != 'fxp' and case.get('masktype', 'py') != 'py' else '')
     ctx.ev(len(kxs) * 4)
 
     def do():
         x = F(np.array(kxs, dtype=object if w > 62 else np.int64).reshape(shape), sx, w, f, raw=True)
         y = mk(F, fy, ky) if ykind == 'fxp' else ky
+        if ykind != 'fxp' and case.get('masktype', 'py') != 'py':
+            y = {'np.int64': np.int64, 'np.uint8': np.uint8, 'np.int16': np.int16, 'np-0d': np.array}[case['masktype']](ky)
         out = {}
         for op in OPS:
             if ykind == 'rmask':
@@ -229,6 +231,10 @@ def st_case(draw):
     n = int(np.prod(shape))
     mask = draw(st.one_of(st.integers(-(1 << w), (1 << w) - 1), st.sampled_from([0, -1, 1, (1 << w) - 1, -(1 << (w - 1)), (1 << (w - 1))])))
     case = {'check': 'vec', 'fx': list(fx), 'kx': [draw(st_codew(sx, w)) for _ in range(n)], 'ky': mask, 'ykind': 'mask' if kind == 'vec-mask' else 'rmask', 'shape': shape}
+    # the same mask held by a numpy integer (only types that hold it exactly)
+    fits = [t for t, lo_, hi_ in (('np.uint8', 0, 255), ('np.int16', -(1 << 15), (1 << 15) - 1), ('np.int64', -(1 << 63), (1 << 63) - 1), ('np-0d', -(1 << 63), (1 << 63) - 1)) if lo_ <= mask <= hi_]
+    if fits and draw(st.booleans()):
+        case['masktype'] = draw(st.sampled_from(fits))
     return case
 
 
@@ -251,6 +257,8 @@ def body(ctx, case):
             ctx.cls('mask-negative')
         if case.get('ykind') == 'rmask':
             ctx.cls('reflected')
+        if case.get('masktype', 'py') != 'py':
+            ctx.cls('numpy-mask:' + case['ykind'])
     if case.get('indexed'):
         ctx.cls('indexed-operand')
     if nt:
